@@ -28,7 +28,9 @@ def run():
         for delay in (0, 40):
             scs.append(C.from_model_script("C05/model/d%d/%d" % (delay, k), sc, dial_delay=delay))
     if quick:
-        scs = pick(scs, 100, ctx.seed, core=40)
+        core = [x for x in scs if "/S1+S2/ok/" in x["id"] or "/S2/ok/held" in x["id"] or "/S1/ok/held" in x["id"]]
+        rest = [x for x in scs if x not in core]
+        scs = core + pick(rest, 100 - len(core), ctx.seed)
     scs = C.gated("C05") + scs
     trace = ctx.run_scenarios(scs, "c05", par=8)
     verdicts, _ = ctx.validate(trace, "MonC05")
